@@ -25,7 +25,15 @@ Monitors (P = postcondition on the real function, W = workload relation)
   point-roundtrip      W  CP1Point in every coordinate system <-> spherical
   disk-roundtrip       W  CP1Disk(c, r).circle_parameters() == (c, r);
                           FS disk reports its centre and 2*radius; double
-                          complement is the original disk
+                          complement is the original disk; for disks that are
+                          small compared with their distance from the origin
+                          (|c|/r = 1e3 .. 1e8) the error is measured in radii
+                          against the conditioning bound radius_scale_tol
+  scale-invariance     W  center_inside / circle_parameters / contains /
+                          intersects (both broadcast modes) of lambda * data,
+                          (lambda * M) @ disk and Fubini-Study disks about
+                          lambda * (homogeneous centre), |lambda| = 1e-12 ..
+                          1e12, equal those of the unscaled representatives
 """
 import traceback
 
@@ -44,11 +52,25 @@ RULE = ("point cases = (coordinate system in {projective, cx_affine, real_affine
         "shape); Moebius cases = (matrix class, disk side); relation cases = "
         "(configuration in {nested, disjoint, overlapping, near-tangent}, the four "
         "bounded/unbounded combinations, elementwise / pairwise, unit / composite); "
+        "small-far cases = (decade of |centre|/radius in 1e3..1e8, centre coordinate "
+        "system, construction route in {constructor, raw data, similarity image}, "
+        "relation configuration); scale cases = (class of the overall factor lambda in "
+        "{tiny, huge, moderate} x {positive, negative, complex}, |lambda| = 1e-12..1e12, "
+        "object in {point, raw disk data per row / per disk, Moebius matrix, "
+        "Fubini-Study centre as array / CP1Point}, relation configuration); "
         "non-trivial = in-domain by the independent predicate (near-tangent pairs "
         "are counted out of domain); distinct = distinct signatures of those tuples")
 ASSUMPTIONS = [
     "pairs of disks are judged in general position: | |c1-c2| - (r1+r2) | and "
-    "| |c1-c2| - |r1-r2| | >= 1e-3 * max(1, r1, r2, |c1-c2|)",
+    "| |c1-c2| - |r1-r2| | >= 1e-3 * max(1, r1, r2, |c1-c2|), or (pairs of small "
+    "disks) >= 1e-3 * max(r1, r2, |c1-c2|) and >= 100 * 32 eps * (|c1|+r1+|c2|+r2)",
+    "reported centres / radii are also judged in units of the radius, with "
+    "tolerance (1e-9 + 32 eps (|c|+r)/r) / mg^2: one rounding per stored affine "
+    "boundary point is all that a route which translates a point to the origin "
+    "before solving (the documented one) can lose; centres given in spherical "
+    "coordinates are exempt (not determined to that accuracy by their input)",
+    "homogeneous representatives and matrices are rescaled by |lambda| in "
+    "[1e-12, 1e12] only (no claim about underflow / overflow ranges)",
     "a disk is in-domain when its three boundary points are finite, pairwise "
     "distinct and not collinear (|sin| >= 1e-3) and its interior point is at "
     "relative distance >= 1e-6 from the circle",
@@ -88,6 +110,29 @@ REQUIRED = [
 MAX_UNITS = 48
 DISK_MARGIN = 1e-6
 REL_MARGIN = 1e-3
+EPS = 2.220446049250313e-16
+COND_K = 32.0
+
+
+def radius_scale_tol(c, r, mg=1.0):
+    """tolerance for a reported (centre, radius), RELATIVE TO THE RADIUS.
+
+    Conditioning argument (not fitted to the pinned tree): the library's
+    documented route stores the three boundary points as affine numbers
+    p_i = c + r u_i -- each carries one rounding error of size eps (|c| + r) --
+    and circle_through translates one of them to the origin before solving, so
+    the data of the solve are the differences p_i - p_0 (size r, absolute error
+    <= 2 eps (|c| + r)), the solve amplifies an absolute perturbation of the
+    vertices by at most ~1/mg^2 (mg = |sin| of the triangle's angle, 1 for the
+    library's own right-angled triple), and adding p_0 back costs one more
+    eps |c|.  First-order total <= ~6 eps (|c| + r) / mg^2 absolute, the
+    reference circumcircle (same shape of computation) may lose as much again;
+    COND_K = 32 leaves a factor > 2 on the sum.  Relative to r this is
+    K eps (|c| + r) / r: 7e-15 for an ordinary disk, 7e-7 for |c| / r = 1e8;
+    the bulk floor 1e-9 keeps any reasonable formula quiet on ordinary disks.
+    A formula in absolute coordinates (|p|^2 terms) loses eps (|c| / r)^2
+    instead and is told apart from |c| / r ~ 1e4 on.  (seeded change C20-r3-1)"""
+    return (1e-9 + COND_K * EPS * (abs(c) + r) / r) / mg ** 2
 _state = {"run": None, "CP1Disk": None}
 
 HOOKED = {"__init__", "circle_parameters", "center_inside", "fs_center", "fs_diameter",
@@ -161,6 +206,21 @@ def ref_disk(unit_data):
             _cache.clear()
         dk = _cache[key] = cp1.disk_from_data(unit_data)
     return dk
+
+
+_mg_cache = {}
+
+
+def circ_margin(unit_data):
+    """collinearity margin of the three boundary points of one unit (memoised
+    like ref_disk: circle_parameters is called by every other query)."""
+    key = unit_data[:3].tobytes()
+    mg = _mg_cache.get(key)
+    if mg is None:
+        if len(_mg_cache) > 20000:
+            _mg_cache.clear()
+        mg = _mg_cache[key] = cp1.circumcircle(*(unit_data[:3, 1] / unit_data[:3, 0]))[2]
+    return mg
 
 
 def ref_disks(data, units):
@@ -337,6 +397,18 @@ def hook_init(call):
                              "CP1Disk.__init__/boundary-not-on-circle/%s" % cls,
                              "a stored boundary point is not at distance `rad` from `center`", c):
                 continue
+            # ... and at the scale of the radius (a disk that is small compared
+            # with its distance from the origin is still a disk of that radius):
+            # one rounding of c + r u per point, see radius_scale_tol.  A centre
+            # given on the sphere is itself only known to eps (1 + |c|^2) |c|,
+            # so that coordinate system is judged at the scale above only.
+            if coords != "spherical":
+                tol_r = radius_scale_tol(cz, r)
+                if not mon.judge(float(np.max(np.abs(np.abs(z[:3] - cz) - r)) / r), tol_r,
+                                 "CP1Disk.__init__/boundary-not-on-circle-at-radius-scale/%s" % cls,
+                                 "a stored boundary point is not at distance `rad` from `center` "
+                                 "(error measured in radii)", c, suspicious=0.5 * tol_r):
+                    continue
             sep = min(abs(z[i] - z[j]) for i in range(3) for j in range(i))
             if not mon.require(sep > 0.1 * r, "CP1Disk.__init__/boundary-degenerate/%s" % cls,
                                "two stored boundary points (nearly) coincide", c):
@@ -380,7 +452,7 @@ def hook_circle_parameters(call):
         return
     obj, data, batch, units, refs = got
     good = [ix for ix in units if refs[ix].aff is not None and refs[ix].margin > 0
-            and cp1.circumcircle(*(data[ix][:3, 1] / data[ix][:3, 0]))[2] >= REL_MARGIN]
+            and circ_margin(data[ix]) >= REL_MARGIN]
     if not good:
         return mon.skip("boundary points at infinity / collinear")
     cls = shape_cls(batch)
@@ -403,11 +475,23 @@ def hook_circle_parameters(call):
                         "centre shape %r radius shape %r for disks of shape %r" % (C.shape, R.shape, batch), case)
     for ix in good:
         c0, r0, _ = refs[ix].aff
-        mg = cp1.circumcircle(*(data[ix][:3, 1] / data[ix][:3, 0]))[2]
+        mg = circ_margin(data[ix])
         err = max(abs(complex(C[ix][0], C[ix][1]) - c0), abs(float(R[ix]) - r0)) / (r0 + abs(c0))
-        mon.judge(err, 1e-10 / mg ** 2, "circle_parameters/not-the-boundary-circle/%s" % cls,
-                  "reported (centre, radius) is not the circle through the boundary points",
-                  dict(case, unit=list(ix), proj_data=data[ix], result=[C[ix], R[ix]], expected=describe(refs[ix])))
+        cc = dict(case, unit=list(ix), proj_data=data[ix], result=[C[ix], R[ix]], expected=describe(refs[ix]))
+        if not mon.judge(err, 1e-10 / mg ** 2, "circle_parameters/not-the-boundary-circle/%s" % cls,
+                         "reported (centre, radius) is not the circle through the boundary points", cc):
+            continue
+        # the same error measured in radii: a circle that is small compared with
+        # its distance from the origin must still be reported to the accuracy its
+        # stored points determine it (seeded change C20-r3-1: circumcentre
+        # formula in absolute coordinates, error eps (|c|/r)^2 radii)
+        tol_r = radius_scale_tol(c0, r0, mg)
+        far = "small-far" if abs(c0) > 1e3 * r0 else "ordinary"
+        mon.judge(err * (r0 + abs(c0)) / r0, tol_r,
+                  "circle_parameters/not-the-boundary-circle-at-radius-scale/%s/%s" % (far, cls),
+                  "reported (centre, radius) differs from the circle through the boundary points by more "
+                  "than the conditioning of the stored points allows (error measured in radii, |c|/r = %.3g)"
+                  % (abs(c0) / r0), cc, suspicious=0.5 * tol_r)
 
 
 def _bool_result(mon, name, call, batch, units, refs, want_fn, case, dom_fn=None):
@@ -628,8 +712,16 @@ def _relation_hook(name, truth):
                 mon.skip("a disk is degenerate / passes through infinity")
                 continue
             if cp1.relation_margin(A.aff[0], A.aff[1], B.aff[0], B.aff[1]) < REL_MARGIN:
-                mon.skip("pair (nearly) tangent: general-position margin < 1e-3")
-                continue
+                # the margin above is measured against max(1, ...), an absolute
+                # unit: pairs of SMALL disks (radii << 1) were never judged.
+                # General position has no unit: judge as well when the gap is
+                # >= 1e-3 of the configuration's own size and far above what
+                # rounding of the stored affine points can move a circle
+                # (100 x COND_K x eps x (|c| + r), see radius_scale_tol).
+                gap, sc_, noise = cp1.relation_gap(A.aff[0], A.aff[1], B.aff[0], B.aff[1])
+                if not (gap >= REL_MARGIN * sc_ and gap >= 100.0 * COND_K * noise):
+                    mon.skip("pair (nearly) tangent: general-position margin < 1e-3")
+                    continue
             judged.append((o, i, j))
             combos.add("%s-vs-%s" % (side_cls(A), side_cls(B)))
         if not judged:
@@ -780,7 +872,8 @@ def setup(run):
     mins = {"projective_to_spherical": 100, "spherical_to_projective": 100, "CP1Disk.__init__": 100,
             "circle_parameters": 200, "center_inside": 200, "fs_diameter": 100, "fs_center": 100,
             "complement": 100, "inversion": 100, "contains": 200, "intersects": 200,
-            "mobius-image": 200, "point-roundtrip": 100, "disk-roundtrip": 100}
+            "mobius-image": 200, "point-roundtrip": 100, "disk-roundtrip": 100,
+            "scale-invariance": 100}
     for k, v in mins.items():
         run.monitor(k, min_events=v)
     attach.wrap_everywhere(run, cpm.projective_to_spherical, hook_projective_to_spherical)
@@ -1240,10 +1333,367 @@ def wl_relations(run, rng, idx):
     if idx < 2:
         run.sample(case)
 
+# ---------------------------------------------------------------------------
+# small disks far from the origin (seeded change C20-r3-1)
+
+SMALL_FAR_COORDS = ["cx_affine", "real_affine", "projective"]
+
+
+def relation_queries(run, rng, cpm, case, shape, c1, r1, c2, r2, route, label):
+    """all four bounded / unbounded combinations of the pair, both broadcast
+    modes; the postconditions on contains / intersects judge the answers."""
+    disks = {}
+    for name, (c, r) in (("A", (c1, r1)), ("B", (c2, r2))):
+        if route == "data":
+            disks[name, True] = guard(lambda: cpm.CP1Disk(data_disk(rng, c, r, True)))
+            disks[name, False] = guard(lambda: cpm.CP1Disk(data_disk(rng, c, r, False)))
+        elif route == "constructor+data":
+            disks[name, True] = guard(lambda: cpm.CP1Disk(c.copy(), r.copy()))
+            disks[name, False] = guard(lambda: cpm.CP1Disk(data_disk(rng, c, r, False)))
+        else:
+            Dn = guard(lambda: cpm.CP1Disk(c.copy(), r.copy()))
+            disks[name, True] = Dn
+            disks[name, False] = guard(Dn.complement) if Dn is not None else None
+    for b1 in (True, False):
+        for b2 in (True, False):
+            A, B = disks["A", b1], disks["B", b2]
+            if A is None or B is None:
+                continue
+            run.current_case = dict(case, bounded=[b1, b2])
+            run.note_class(label, case.get("configuration"), b1, b2, shape, route)
+            for bc in ("elementwise", "pairwise"):
+                guard(lambda: A.contains(B, broadcast=bc))
+                guard(lambda: A.intersects(B, broadcast=bc))
+                guard(lambda: B.contains(A, broadcast=bc))
+                guard(lambda: B.intersects(A, broadcast=bc))
+    return disks
+
+
+def wl_small_far(run, rng, idx):
+    """Disks that are small compared with their distance from the origin:
+    |centre| / radius from 1e3 to 1e8 (one decade per case class), |centre| up
+    to 4e5.  "A disk built from a centre and radius reports that centre and
+    radius" and the containment / intersection tests are statements about the
+    disk, whose natural unit is its radius -- a reported centre that is off by
+    a third of a radius gives wrong set-theoretic answers although it is
+    accurate to 1e-8 relative to |centre|.  (seeded change C20-r3-1: closed-form
+    circumcentre in absolute coordinates; the ordinary classes have
+    |centre| / radius <= 100 and judged relative to |centre| + radius)"""
+    from geometry_tools import complex_projective as cpm, projective
+    mon = run.monitor("disk-roundtrip")
+    shape = SHAPES[idx % 4]
+    coords = SMALL_FAR_COORDS[idx % 3]
+    decade = 3 + (idx // 4) % 5
+    ratio = 10 ** rng.uniform(decade, decade + 1, size=shape)
+    c = rand_complex(rng, shape, 0.0, 5.6)
+    r = np.abs(c) / ratio
+    case = {"workload": "small-far", "shape": list(shape), "center_coords": coords, "decade": decade,
+            "centre": c, "radius": r}
+    run.current_case = case
+    run.note_class("small-far", coords, decade, shape)
+    # (centre, radius) -> circle_parameters, measured in radii
+    D = guard(lambda: cpm.CP1Disk(pack_centre(rng, c, coords), r.copy(), center_coords=coords))
+    if D is not None:
+        cp_ = guard(D.circle_parameters)
+        if cp_ is not None:
+            C_, R_ = np.asarray(cp_[0]), np.asarray(cp_[1])
+            if C_.shape == shape + (2,) and R_.shape == shape:
+                err = np.maximum(np.abs(C_[..., 0] + 1j * C_[..., 1] - c), np.abs(R_ - r)) / r
+                tol = np.vectorize(radius_scale_tol)(c, r)
+                q = err / tol
+                mon.judge(float(np.max(q)) if q.size else 0.0, 1.0,
+                          "disk-roundtrip/circle_parameters-differs-at-radius-scale/small-far",
+                          "CP1Disk(c, r).circle_parameters() != (c, r): error in radii / (K eps (|c|+r)/r)",
+                          dict(case, reported=[C_, R_], error_in_radii=err), suspicious=0.5)
+            else:
+                mon.fail("disk-roundtrip/shape/affine", "circle_parameters shapes %r %r for disks of shape %r"
+                         % (C_.shape, R_.shape, shape), case)
+        ci = guard(D.center_inside)
+        if ci is not None:
+            mon.require(bool(np.all(ci)), "disk-roundtrip/center_inside/small-far",
+                        "CP1Disk(c, r).center_inside() is not True", case)
+        guard(D.fs_diameter)
+        guard(D.fs_center)
+        # complement() / inversion() are NOT driven here: the library builds the
+        # involution as a matrix through to_standard_triple, whose condition
+        # number is ~ (1 + |c|^2)^2 / r^2 -- far beyond the 1e8 up to which the
+        # inversion postcondition judges (level note of this check) for every
+        # disk of this class.  Disks containing infinity come from raw data.
+    # the same disks as images of ordinary disks under the similarity
+    # z -> c + s z (a Moebius map fixing infinity), and as raw data
+    c0, r0 = rand_disk_params(rng, shape, "generic")
+    sim = np.zeros(shape + (2, 2), dtype=complex)
+    sim[..., 0, 0] = 1.0
+    sim[..., 1, 1] = r / r0
+    sim[..., 1, 0] = c - (r / r0) * c0
+    for bounded in (True, False):
+        D0 = guard(lambda: cpm.CP1Disk(data_disk(rng, c0, r0, bounded)))
+        run.current_case = dict(case, route="similarity-image", bounded=bounded, source_centre=c0,
+                                source_radius=r0, column_matrix=sim)
+        if D0 is not None:
+            T = projective.Transformation(sim.copy(), column_vectors=True)
+            TD = guard(lambda: T @ D0)
+            if TD is not None:
+                guard(TD.circle_parameters)
+                guard(TD.center_inside)
+        Dd = guard(lambda: cpm.CP1Disk(data_disk(rng, c, r, bounded)))
+        run.current_case = dict(case, route="data", bounded=bounded)
+        if Dd is not None:
+            guard(Dd.circle_parameters)
+            guard(Dd.center_inside)
+            guard(Dd.fs_diameter)
+    # relations: an ordinary pair in the requested configuration, carried to
+    # the small-far position by the similarity z -> c + s z
+    cfg = CONFIGS[idx % 5]
+    route = ["data", "constructor+data"][(idx // 5) % 2]
+    p1, q1, p2, q2 = rand_pair(rng, shape, cfg)
+    s_ = r / np.maximum(q1, q2)
+    c1, r1, c2, r2 = c, s_ * q1, c + s_ * (p2 - p1), s_ * q2
+    rcase = dict(case, configuration=cfg, route=route, c1=c1, r1=r1, c2=c2, r2=r2)
+    run.current_case = rcase
+    relation_queries(run, rng, cpm, rcase, shape, c1, r1, c2, r2, route, "relations-small-far")
+    if idx < 2:
+        run.sample(case)
+
+
+# ---------------------------------------------------------------------------
+# overall scale of homogeneous data (seeded change C20-r3-2)
+
+SCALE_SHAPES = [(), (3,), (2, 2), (1,)]
+LAMBDA_CLASSES = ["tiny-positive", "huge-positive", "tiny-negative", "huge-negative",
+                  "tiny-complex", "huge-complex", "moderate-complex"]
+
+
+def rand_lambda(rng, shape, lcls):
+    """non-zero scalars: |lambda| = 10^-U(6,12) (tiny), 10^+U(6,12) (huge) or
+    10^U(-1,1); positive, negative or of arbitrary argument."""
+    kind, arg = lcls.split("-")
+    e = rng.uniform(6, 12, size=shape)
+    mod = 10 ** {"tiny": -e, "huge": e, "moderate": rng.uniform(-1, 1, size=shape)}[kind]
+    if arg == "positive":
+        return mod.astype(complex)
+    if arg == "negative":
+        return (-mod).astype(complex)
+    return mod * np.exp(1j * rng.uniform(0, 2 * np.pi, size=shape))
+
+
+def _pairs_in_domain(d1, d2, ix1, ix2):
+    """is the pair of units in general position for the reference model?"""
+    A, B = ref_disk(d1[ix1]), ref_disk(d2[ix2])
+    if A.aff is None or B.aff is None or A.margin < DISK_MARGIN or B.margin < DISK_MARGIN:
+        return False
+    gap, sc_, noise = cp1.relation_gap(A.aff[0], A.aff[1], B.aff[0], B.aff[1])
+    return bool(gap >= REL_MARGIN * sc_ and gap >= 100.0 * COND_K * noise)
+
+
+def wl_scales(run, rng, idx):
+    """A point of CP^1 is a homogeneous pair up to a non-zero scalar and a
+    Moebius map is a matrix up to a non-zero scalar: nothing -- bounded /
+    unbounded classification (center_inside), circle parameters, contains /
+    intersects in both broadcast modes -- may depend on the overall scale of
+    the representatives.  Every other workload uses representatives of modulus
+    0.1 .. 10; here lambda * v and lambda * M with |lambda| from 1e-12 to 1e+12
+    (positive, negative, complex), rows of disk data scaled independently,
+    Fubini-Study centres given in small / huge homogeneous coordinates
+    (center_coords='projective' or a CP1Point).  The ambient postconditions
+    judge every call against the reference model (which only uses ratios);
+    the 'scale-invariance' monitor compares the answers for lambda * data with
+    those for the data themselves.  (seeded change C20-r3-2: in_affine_chart by
+    np.isclose(x, 0), an absolute 1e-8 threshold on a homogeneous coordinate)"""
+    from geometry_tools import complex_projective as cpm, projective
+    mon = run.monitor("scale-invariance")
+    pmon = run.monitor("point-roundtrip")
+    shape = SCALE_SHAPES[idx % 4]
+    lcls = LAMBDA_CLASSES[(idx // 4) % 7]
+    lk = lcls.split("-")[0]            # key class: tiny / huge / moderate
+    case = {"workload": "scales", "shape": list(shape), "lambda-class": lcls}
+    run.note_class("scales", lcls, shape)
+
+    def units(sh):
+        return list(np.ndindex(*sh)) if sh else [()]
+
+    # -- points ---------------------------------------------------------------
+    z = rand_complex(rng, shape, -3, 3)
+    lam = rand_lambda(rng, shape + (1,), lcls)
+    H = np.stack([np.ones_like(z), z], axis=-1) * lam
+    if shape and idx % 2 == 0:
+        H[(0,) * len(shape)] = np.array([0, 1.0]) * lam[(0,) * len(shape)]      # infinity
+        z = z.copy()
+        z[(0,) * len(shape)] = np.inf
+    want_s = np.array([cp1.stereographic(w) for w in np.ravel(z)]).reshape(shape + (3,))
+    run.current_case = dict(case, part="points", z=z, homogeneous=H)
+    P = guard(lambda: cpm.CP1Point(H.copy()))
+    if P is not None:
+        got = guard(P.spherical_coords)
+        if got is not None:
+            got = np.asarray(got)
+            if got.shape != want_s.shape:
+                pmon.fail("point-roundtrip/shape/projective->spherical", "shape %r, expected %r"
+                          % (got.shape, want_s.shape), run.current_case)
+            else:
+                pmon.judge(float(np.max(np.abs(got - want_s))), 1e-12,
+                           "point-roundtrip/projective->spherical/scaled-%s" % lk,
+                           "spherical coordinates of lambda * (1, z) differ from the stereographic "
+                           "projection of z", run.current_case)
+
+    # -- disks from raw data, rows scaled independently ---------------------------
+    cfg = CONFIGS[idx % 5]
+    c1, r1, c2, r2 = rand_pair(rng, shape, cfg)
+    raw = {}
+    for name, (c, r) in (("A", (c1, r1)), ("B", (c2, r2))):
+        for bounded in (True, False):
+            raw[name, bounded] = data_disk(rng, c, r, bounded)
+    row_lam = {k: rand_lambda(rng, shape + (4, 1), lcls) for k in raw}
+    if idx % 3 == 0:
+        # one scalar per disk instead of one per row
+        row_lam = {k: np.broadcast_to(v[..., :1, :], v.shape) for k, v in row_lam.items()}
+
+    def build(dat):
+        return guard(lambda: cpm.CP1Disk(dat.copy()))
+
+    def compare_queries(D0, D1, what, c_):
+        """center_inside and circle_parameters of the rescaled object against
+        those of the original representatives (units in the model's domain)."""
+        if D0 is None or D1 is None:
+            return
+        d0 = np.asarray(D0.proj_data, dtype=complex)
+        ok = [ix for ix in units(d0.shape[:-2])
+              if ref_disk(d0[ix]).aff is not None and ref_disk(d0[ix]).margin >= DISK_MARGIN]
+        if not ok:
+            return mon.skip("no unit in the model's domain")
+        a0, a1 = guard(D0.center_inside), guard(D1.center_inside)
+        if a0 is not None and a1 is not None and np.shape(a0) == np.shape(a1):
+            a0, a1 = np.asarray(a0), np.asarray(a1)
+            mon.require(all(bool(a0[ix]) == bool(a1[ix]) for ix in ok),
+                        "scale-invariance/center_inside/%s/%s" % (what, lk),
+                        "center_inside() changes when the homogeneous data are rescaled", c_)
+        p0, p1 = guard(D0.circle_parameters), guard(D1.circle_parameters)
+        if p0 is not None and p1 is not None and np.shape(p0[1]) == np.shape(p1[1]):
+            e = 0.0
+            for ix in ok:
+                cz, rr, _ = ref_disk(d0[ix]).aff
+                e = max(e, (abs(p0[0][ix][0] - p1[0][ix][0]) + abs(p0[0][ix][1] - p1[0][ix][1])
+                            + abs(p0[1][ix] - p1[1][ix])) / (rr + abs(cz)))
+            mon.judge(e, 1e-9, "scale-invariance/circle_parameters/%s/%s" % (what, lk),
+                      "circle_parameters() changes when the homogeneous data are rescaled", c_)
+
+    def compare_relations(A0, B0, A1, B1, what, c_):
+        if None in (A0, B0, A1, B1):
+            return
+        dA, dB = np.asarray(A0.proj_data, dtype=complex), np.asarray(B0.proj_data, dtype=complex)
+        ua, ub = units(dA.shape[:-2]), units(dB.shape[:-2])
+        for bc in ("elementwise", "pairwise"):
+            if bc == "elementwise":
+                if dA.shape != dB.shape:
+                    continue
+                sel = [(ix, ix, ix) for ix in ua]
+            else:
+                sel = [((i, j), ua[i], ub[j]) for i in range(len(ua)) for j in range(len(ub))]
+            sel = [t for t in sel if _pairs_in_domain(dA, dB, t[1], t[2])]
+            for rel in ("contains", "intersects"):
+                g0 = guard(lambda: getattr(A0, rel)(B0, broadcast=bc))
+                g1 = guard(lambda: getattr(A1, rel)(B1, broadcast=bc))
+                if g0 is None or g1 is None:
+                    continue
+                g0, g1 = np.asarray(g0), np.asarray(g1)
+                if g0.shape != g1.shape:
+                    mon.fail("scale-invariance/%s/shape/%s/%s" % (rel, what, bc),
+                             "%s(): result shape changes with the scale of the data" % rel, c_)
+                    continue
+                if not sel:
+                    mon.skip("no pair in general position")
+                    continue
+                mon.require(all(bool(g0[t[0]]) == bool(g1[t[0]]) for t in sel),
+                            "scale-invariance/%s/%s/%s/%s" % (rel, what, bc, lk),
+                            "%s() changes when the homogeneous data are rescaled" % rel, c_)
+
+    D0 = {k: build(v) for k, v in raw.items()}
+    D1 = {k: build(raw[k] * row_lam[k]) for k in raw}
+    for b1 in (True, False):
+        for b2 in (True, False):
+            c_ = dict(case, part="raw-data", configuration=cfg, bounded=[b1, b2], c1=c1, r1=r1, c2=c2, r2=r2,
+                      self=raw["A", b1] * row_lam["A", b1], other=raw["B", b2] * row_lam["B", b2])
+            run.current_case = c_
+            run.note_class("scales-relations", lcls, cfg, b1, b2, shape)
+            compare_relations(D0["A", b1], D0["B", b2], D1["A", b1], D1["B", b2], "raw-data", c_)
+    for k in raw:
+        c_ = dict(case, part="raw-data", bounded=k[1], proj_data=raw[k] * row_lam[k])
+        run.current_case = c_
+        compare_queries(D0[k], D1[k], "raw-data", c_)
+        if D1[k] is not None and idx % 2 == 0:
+            guard(D1[k].fs_diameter)
+            guard(D1[k].fs_center)
+            guard(D1[k].complement)
+
+    # -- Moebius images under lambda * M -------------------------------------------
+    mcls = MOBIUS_CLASSES[(idx + idx // 12) % 6]
+    M = rand_mobius(rng, mcls)
+    lamM = complex(rand_lambda(rng, (), lcls))
+    colv = bool((idx // 2) % 2)
+    Mu = M if colv else M.T
+    T0 = projective.Transformation(Mu.copy(), column_vectors=colv)
+    T1 = projective.Transformation(lamM * Mu, column_vectors=colv)
+    img0, img1 = {}, {}
+    for k in raw:
+        run.current_case = dict(case, part="mobius", matrix_class=mcls, column_matrix=M, scale=lamM,
+                                bounded=k[1], source=raw[k])
+        if D0[k] is None:
+            img0[k] = img1[k] = None
+            continue
+        img0[k] = guard(lambda: T0 @ D0[k])
+        img1[k] = guard(lambda: T1 @ D0[k])
+        compare_queries(img0[k], img1[k], "mobius-image", run.current_case)
+    for b1 in (True, False):
+        for b2 in (True, False):
+            c_ = dict(case, part="mobius", matrix_class=mcls, column_matrix=M, scale=lamM, configuration=cfg,
+                      bounded=[b1, b2], self=raw["A", b1], other=raw["B", b2])
+            run.current_case = c_
+            run.note_class("scales-mobius", lcls, mcls, b1, b2, shape)
+            compare_relations(img0["A", b1], img0["B", b2], img1["A", b1], img1["B", b2], "mobius-image", c_)
+
+    # -- Fubini-Study disks about a centre in small / huge homogeneous coordinates ------
+    fc = rand_complex(rng, shape, -1.5, 1.5)
+    room = np.minimum(np.arctan(np.abs(fc)), np.pi / 2 - np.arctan(np.abs(fc)))   # FS distance to 0 / infinity
+    rho_out = rng.uniform(0.05, 1.2, size=shape)
+    if idx % 2:
+        rho_out = np.minimum(rho_out, 0.9 * room)        # misses 0 and infinity: bounded, ordinary
+    rho_in = rho_out * rng.uniform(0.1, 0.8, size=shape)
+    lamF = rand_lambda(rng, shape + (1,), lcls)
+    ctr0 = np.stack([np.ones_like(fc), fc], axis=-1)
+    as_point = bool((idx // 4) % 2)
+    c_ = dict(case, part="fs", centre=fc, fs_radius_outer=rho_out, fs_radius_inner=rho_in,
+              homogeneous_centre=ctr0 * lamF, centre_given_as="CP1Point" if as_point else "projective")
+    run.current_case = c_
+    run.note_class("scales-fs", lcls, shape, as_point)
+
+    def fs_disk(ctr, rho):
+        if as_point:
+            return guard(lambda: cpm.CP1Disk(cpm.CP1Point(ctr.copy()), rho.copy(), radius_metric="fs"))
+        return guard(lambda: cpm.CP1Disk(ctr.copy(), rho.copy(), radius_metric="fs", center_coords="projective"))
+    O0, I0 = fs_disk(ctr0, rho_out), fs_disk(ctr0, rho_in)
+    O1, I1 = fs_disk(ctr0 * lamF, rho_out), fs_disk(ctr0 * lamF, rho_in)
+    compare_queries(O0, O1, "fs-disk", c_)
+    compare_queries(I0, I1, "fs-disk", c_)
+    compare_relations(O0, I0, O1, I1, "fs-disk", c_)
+    compare_relations(I0, O0, I1, O1, "fs-disk", c_)
+    for Dq in (O1, I1):
+        if Dq is not None:
+            guard(Dq.fs_center)
+    if O1 is not None:
+        fd = guard(O1.fs_diameter)
+        if fd is not None and np.shape(fd) == shape:
+            mon.judge(float(np.max(np.abs(np.asarray(fd) - 2 * rho_out))) if rho_out.size else 0.0, 1e-8,
+                      "scale-invariance/fs_diameter-differs/fs-disk/%s" % lk,
+                      "FS disk about a rescaled homogeneous centre does not report 2 * radius", c_)
+    if idx < 2:
+        run.sample(case)
+
 
 WORKLOADS = [
     Workload("points", wl_points, quick=96, thorough=1920),
     Workload("disks", wl_disks, quick=80, thorough=1600),
     Workload("mobius", wl_mobius, quick=120, thorough=2400),
     Workload("relations", wl_relations, quick=80, thorough=1600),
+    Workload("small-far", wl_small_far, quick=40, thorough=960),
+    Workload("scales", wl_scales, quick=42, thorough=1008),
 ]
